@@ -1,12 +1,14 @@
 //! One module per property.
 
+pub mod c14;
+pub mod c15;
 pub mod c19;
 pub mod c20;
 
 use crate::engine::Property;
 
 pub fn all() -> Vec<Property> {
-    vec![c19::property(), c20::property()]
+    vec![c14::property(), c15::property(), c19::property(), c20::property()]
 }
 
 pub fn by_id(id: &str) -> Option<Property> {
